@@ -473,7 +473,20 @@ CMP = {"core::cmp::PartialOrd::gt": "gt", "core::cmp::PartialOrd::lt": "lt", "co
        "core::cmp::PartialEq::ne": "ne", "core::cmp::PartialEq::eq": "eq"}
 
 
-def drain_analysis(F, f):
+_DRAIN_HELPER = {}
+
+
+def is_drain_helper(F, g):
+    """a workspace function (this, mark) that pops down to its mark parameter on every Ok path"""
+    key = (id(F), g["path"])
+    if key not in _DRAIN_HELPER:
+        _DRAIN_HELPER[key] = False
+        nc, viol, _np = drain_analysis(F, g, param_marks=True)
+        _DRAIN_HELPER[key] = nc > 0 and not viol
+    return _DRAIN_HELPER[key]
+
+
+def drain_analysis(F, f, param_marks=False):
     """Work-list helpers that borrow the operand stack: returns (n_drain_conditions, violations).
     state clean = the depth is known to be back at the mark (we just left a `get_register_len() > mark` test on its false edge);
     any call that is handed the data object makes it unknown again; an Ok return needs clean; a direct pop needs a guard."""
@@ -507,6 +520,13 @@ def drain_analysis(F, f):
         return False
 
     named = set(i for i, l in enumerate(mir["locals"]) if l.get("name"))
+    param_mark_locals = set(range(2, mir["argc"] + 1)) if param_marks else set()
+    _dfl = derives_from_len
+
+    def derives_from_len(l, depth=0):  # noqa: F811 - a mark parameter of a drain helper counts as a mark
+        if l in param_mark_locals:
+            return True
+        return _dfl(l, depth)
     # drain conditions: cmp(len_now, mark) where len_now is a *fresh* get_register_len() temp and mark a named local derived from an earlier one
     conds = {}  # block index -> (kind, clean_edge_is_false)
     for bi, b in enumerate(blocks):
@@ -590,7 +610,51 @@ def drain_analysis(F, f):
                     work.append((clean_b, False, err))
                     work.append((other_b, dirty, err))
                     continue
-            passes_data = any("GarnishData" in (mir["locals"][mirq.op_local(a)]["ty"] if mirq.op_local(a) is not None else "") or (mirq.op_local(a) is not None and mir["locals"][mirq.op_local(a)]["ty"].startswith("&mut Data")) for a in t["args"])
+            g_ = F.fns.get(t.get("resolved") or "") or F.fns.get(d)
+            if g_ is not None and g_["path"] != f["path"] and g_["crate"].startswith(("garnish_lang", "gfixture")) and not param_marks:
+                arg_locals = [mirq.op_local(a) for a in t["args"]]
+                def mark_like(l, depth=0):
+                    if l is None or depth > 4:
+                        return False
+                    cand = {l} | set(o[3] for o in mirq.origins(mir, l, asg))
+                    # every local on the copy chain (origins() skips the named local a temp was moved into)
+                    chain, todo = set(), [l]
+                    while todo:
+                        x = todo.pop()
+                        if x in chain:
+                            continue
+                        chain.add(x)
+                        for (_b, si, node) in asg.get(x, []):
+                            if si != "term" and node.get("k") == "Use":
+                                pl = mirq.op_place(node["op"])
+                                if pl and not pl["p"]:
+                                    todo.append(pl["l"])
+                    cand |= chain
+                    if any(b_ in named and derives_from_len(b_) for b_ in cand):
+                        return True
+                    for o in mirq.origins(mir, l, asg):
+                        if o[1] == "term" and (o[2].get("def") or "").endswith("Clone::clone") and o[2]["args"]:
+                            if mark_like(mirq.op_local(o[2]["args"][0]), depth + 1):
+                                return True
+                        if o[1] != "term" and o[2].get("k") == "Ref" and mark_like(o[2]["place"]["l"], depth + 1):
+                            return True
+                    return False
+                if any(mark_like(l) for l in arg_locals) and is_drain_helper(F, g_):
+                    # the drain loop lives in a helper that is handed the mark
+                    for s_ in mirq.succs(t):
+                        work.append((s_, False, err))
+                    guard_true_blocks.add(bi)
+                    continue
+            def is_data_ref(a):
+                l = mirq.op_local(a)
+                if l is None:
+                    return False
+                ty = mir["locals"][l]["ty"]
+                if not ty.startswith("&"):
+                    return False
+                core_ty = ty.lstrip("&").replace("mut ", "").strip()
+                return core_ty in ("Data", "D", "Self") or core_ty.endswith("GarnishData") or "GarnishData<" in core_ty
+            passes_data = any(is_data_ref(a) for a in t["args"])
             if passes_data and d not in (GD_ + "get_register_len", GD_ + "get_data_type") and d not in CMP:
                 dirty = True
         for s_ in mirq.succs(t):
@@ -641,4 +705,187 @@ def rule_A11(ctx):
             r.control(f["name"], bool(viol) or nc == 0)
         else:
             r.neg_control(f["name"], nc > 0 and not viol)
+    return r
+
+
+# --------------------------------------------------------------------------------------- D1c
+def header_vs_cells(F, f):
+    """In a function that writes `CharList(n)` and then one `Char(c)` per character of a string: the string counted for n is
+    the string whose characters are written.  Returns [(where, counted base, written base)]."""
+    body = Body(f)
+    out = []
+    headers = []
+    for d, c in hirq.calls_in(f["hir"]):
+        if d.endswith("::CharList") and c.get("args"):
+            bases = set()
+            for o in body.origins(c["args"][0]) + [peel(c["args"][0])]:
+                for x in walk(o):
+                    if x.get("k") == "MethodCall" and x.get("m") == "chars":
+                        l = hirq.local_of(x["recv"])
+                        if l is not None:
+                            bases.add(l)
+            if bases:
+                headers.append((c, bases))
+    if not headers:
+        return out
+    written = set()
+    for lp in walk(f["hir"]):
+        if lp.get("k") != "Match" or lp.get("src") != "ForLoopDesugar":
+            continue
+        # the iterated expression: <X>.chars()
+        it_bases = set()
+        for x in walk(lp["scrut"]):
+            if x.get("k") == "MethodCall" and x.get("m") == "chars":
+                l = hirq.local_of(x["recv"])
+                if l is not None:
+                    it_bases.add(l)
+        pushes_char = any((callee(x) or "").endswith("::Char") for x in walk(lp) if x.get("k") == "Call")
+        if it_bases and pushes_char:
+            written |= it_bases
+    if not written:
+        return out
+    for c, bases in headers:
+        if not (bases & written):
+            out.append((loc(c), sorted(bases), sorted(written)))
+    return out
+
+
+def rule_D1c(ctx):
+    F = ctx.F
+    r = RuleResult("D1c", "header counts what is written: a CharList(n) header written before a run of Char cells counts the characters of the very string whose characters are written")
+    n = 0
+    for f in sorted(F.fns.values(), key=lambda f: f["path"]):
+        if f["crate"] != "garnish_lang_simple_data" or f["kind"] == "Closure":
+            continue
+        has = any((d.endswith("::BasicData::CharList")) for d, _c in hirq.calls_in(f["hir"])) and any(x.get("k") == "MethodCall" and x.get("m") == "chars" for x in walk(f["hir"]))
+        if not has:
+            continue
+        n += 1
+        res = header_vs_cells(F, f)
+        r.examine((f["path"],), True, {"fn": f["path"], "mismatches": len(res)})
+        for k, (where, counted, written) in enumerate(res):
+            r.finding(f["path"], "header-counts-other-string#%d" % (k + 1), where, "the CharList header at %s counts the characters of one string while the Char cells are written from another: the name reads back cut short (or with cells of the next value appended)" % where)
+    r.floor("functions writing a CharList header from a string", n, 2)
+    for f in F.fns_in("gfixture::round3::d1c::"):
+        if f["kind"] == "Closure" or not f.get("name", "").startswith(("ctl_", "ok_")):
+            continue
+        res = header_vs_cells(F, f)
+        if f["name"].startswith("ctl_"):
+            r.control(f["name"], bool(res))
+        else:
+            r.neg_control(f["name"], not res)
+    return r
+
+
+# --------------------------------------------------------------------------------------- G4c
+ITEM_GETTERS = ("get_list_item", "get_char_list_item", "get_byte_list_item", "get_symbol_list_item")
+
+
+def user_index_sites(F, f):
+    """calls of a data `get_*_item(addr, index)` whose index is a Number parameter of f handed through unchanged:
+    [(where, getter, has_lower_bound_test)]"""
+    body = Body(f)
+    out = []
+    lower = any(n.get("k") == "Binary" and n.get("op") in ("<", ">=", "<=", ">") and any((callee(x) or "").endswith("::zero") for x in walk(n)) for n in walk(f["hir"]))
+    for d, c in hirq.calls_in(f["hir"]):
+        if last(d) in ITEM_GETTERS and "GarnishData" in d:
+            orgs = body.origins(call_args(c)[-1])
+            if orgs and all(o.get("k") == "Param" for o in orgs):
+                out.append((loc(c), last(d), lower))
+    return out
+
+
+def rule_G4c(ctx):
+    F = ctx.F
+    r = RuleResult("G4c", "index lower bound: a function that hands a caller-supplied number to the data's get_*_item tests it against zero first (the data impls convert a negative number to an index by clamping)")
+    n = 0
+    for f in sorted(F.fns.values(), key=lambda f: f["path"]):
+        if f["crate"] not in ("garnish_lang_runtime", "garnish_lang_traits") or f["kind"] == "Closure":
+            continue
+        for where, getter, lower in user_index_sites(F, f):
+            n += 1
+            r.examine((f["path"], getter), True, {"fn": f["path"], "getter": getter, "where": where, "tests_lower_bound": lower})
+            if not lower:
+                r.finding(f["path"], "no-lower-bound:" + getter, where, "%s passes its index parameter to %s without testing it against zero: BasicGarnishData converts a negative number to index 0, so `list.(-1)` yields the first item instead of unit (every sibling index_* function tests `index < zero()` first)" % (last(f["path"]), getter))
+    r.floor("functions indexing with a caller-supplied number", n, 3)
+    for f in F.fns_in("gfixture::round3::g4c::"):
+        if f["kind"] == "Closure" or not f.get("name", "").startswith(("ctl_", "ok_")):
+            continue
+        sites = user_index_sites(F, f)
+        if f["name"].startswith("ctl_"):
+            r.control(f["name"], any(not l for _w, _g, l in sites))
+        else:
+            r.neg_control(f["name"], bool(sites) and all(l for _w, _g, l in sites))
+    return r
+
+
+# --------------------------------------------------------------------------------------- W6
+def returned_address_origins(F, f):
+    """origin kinds of the value an add_* / parse_add_* method returns on success"""
+    from .origin import return_exprs
+    body = Body(f)
+    kinds = []
+    for re_ in return_exprs(f):
+        for o in body.origins(re_):
+            k = o.get("k")
+            if k in ("Call", "MethodCall"):
+                kinds.append(("call", last(callee(o) or "?"), loc(o)))
+            elif k == "Param":
+                kinds.append(("param", "", "-"))
+            elif k == "Binary":
+                kinds.append(("arith", o.get("op"), loc(o)))
+            elif k == "Field":
+                kinds.append(("field", o.get("name"), loc(o)))
+            elif k == "Lit":
+                kinds.append(("literal", str((o.get("lit") or {}).get("v")), loc(o)))
+            elif k == "Tup" and not o.get("es"):
+                continue
+            else:
+                kinds.append((k or "?", "", loc(o) if o.get("sp") else "-"))
+    # Body.origins looks through arithmetic: find arithmetic on the way explicitly
+    for re_ in return_exprs(f):
+        for x in walk(re_):
+            if x.get("k") == "Binary" and x.get("op") in ("-", "+", "*"):
+                kinds.append(("arith", x.get("op"), loc(x)))
+        e = peel(re_)
+        if e.get("k") == "Call" and (callee(e) or "").endswith("::Ok") and e["args"]:
+            a = peel(e["args"][0])
+            if a.get("k") == "Path" and a.get("res") == "local":
+                for d_ in body.defs.get(a["lid"], []):
+                    if isinstance(d_, dict):
+                        for x in walk(d_):
+                            if x.get("k") == "Binary" and x.get("op") in ("-", "+", "*"):
+                                kinds.append(("arith", x.get("op"), loc(x)))
+    return kinds
+
+
+def rule_W6(ctx):
+    F = ctx.F
+    r = RuleResult("W6", "addresses handed out are addresses written: BasicGarnishData's add_* / parse_add_* return what a store primitive (push_to_data_block, another add_*, a conversion) returned - never an address computed from stored indices")
+    n = 0
+    for f in sorted(F.fns.values(), key=lambda f: f["path"]):
+        ti = f.get("trait_item") or ""
+        nm = last(ti)
+        if f["crate"] != "garnish_lang_simple_data" or "GarnishData::" not in ti or "BasicGarnishData" not in (f.get("impl_self") or ""):
+            continue
+        if not (nm.startswith("add_") or nm.startswith("parse_add_")) or nm == "add_to_list":
+            continue
+        kinds = returned_address_origins(F, f)
+        n += 1
+        r.examine((f["path"],), True, {"method": nm, "returns": sorted(set(k[0] + ":" + str(k[1]) for k in kinds))})
+        seen = set()
+        for k, what, where in kinds:
+            if k in ("arith", "field", "literal") and k not in seen:
+                seen.add(k)
+                r.finding(f["path"], "computed-address:" + k, where, "%s returns an address that is computed (%s %s at %s) rather than the address a store primitive returned for the value it wrote: the cell there need not be (or stay) the value the caller asked for - e.g. after a compaction that keeps only part of what used to precede it" % (nm, k, what, where))
+    r.floor("value-adding methods of BasicGarnishData", n, 15)
+    for f in F.fns_in("gfixture::round3::w6::"):
+        if f["kind"] == "Closure" or not f.get("name", "").startswith(("ctl_", "ok_")):
+            continue
+        kinds = returned_address_origins(F, f)
+        bad = any(k in ("arith", "field", "literal") for k, _w, _l in kinds)
+        if f["name"].startswith("ctl_"):
+            r.control(f["name"], bad)
+        else:
+            r.neg_control(f["name"], not bad)
     return r
